@@ -170,6 +170,8 @@ theorem captureTerm_congr (h : DecoderTablesEqual T T') (urlOk : List Nat → Bo
   all_goals
     simp_all [captureTerm, ← captureIRI_congr h.hexDec, ← captureLiteral_congr h.hexDec,
       ← captureBNode_congr h.pnCharsU h.pnChars, ← isSpace_congr h.space]
+  all_goals
+    rw [if_neg (by rintro ⟨h1, h2⟩; simp_all), if_neg (by rintro ⟨h1, h2⟩; simp_all)]
 
 theorem afterObject_congr (hs : T.space = T'.space) (e : End) (b : Bool) (inp : List Nat) :
     afterObject T e b inp = afterObject T' e b inp := by
